@@ -415,6 +415,11 @@ class JSExec(GoExec, SpecMixin, CallsMixin):
                 raise Unsupported('operator %s on a descriptor string @%s' % (op, line))
             r = self.as_key(a) == self.as_key(b)        # strings as identities: equal identities, equal strings
             return r if op in ('===', '==') else z3.Not(r)
+        if op in ('===', '!==', '==', '!=') and ((isinstance(a, JSDesc) and isinstance(b, JSFunc)) or (isinstance(a, JSFunc) and isinstance(b, JSDesc))):
+            # a type descriptor compared with a named global type ($jsObjectPtr, ...): an abstract predicate of the descriptor
+            d, f = (a, b) if isinstance(a, JSDesc) else (b, a)
+            r = z3.Function('isglobal_' + re.sub(r'\W', '_', f.name), I, B)(d.ref)
+            return r if op in ('===', '==') else z3.Not(r)
         if isinstance(a, (JSRec, JSDesc)) or isinstance(b, (JSRec, JSDesc)):
             if op in ('===', '!==', '==', '!=') and isinstance(a, (JSRec, JSDesc)) and isinstance(b, (JSRec, JSDesc)):
                 r = a.ref == b.ref
@@ -800,6 +805,9 @@ class JSExec(GoExec, SpecMixin, CallsMixin):
         raise Unsupported('member .%s of %r @%s' % (name, obj, self.line(e)))
 
     def js_NewExpression(self, st, e):
+        c0 = e['callee']
+        if c0.get('type') == 'MemberExpression' and not c0.get('computed') and c0['object'].get('name') == '$global' and c0['property'].get('name') == 'Map' and not e['arguments']:
+            return JSObj({'$nil': z3.BoolVal(False)}, ctor='GoMap', ref=fresh('obj'))          # new $global.Map(): an empty, non-nil Go map
         callee = self.ev(st, e['callee'])
         args = [self.ev(st, a) for a in e['arguments']]
         if isinstance(callee, JSFunc) and callee.name.startswith('ctor:'):
